@@ -758,6 +758,14 @@ class Interp(object):
     def st_With(self, st, env):
         for item in st.items:
             cm = self.eval(item.context_expr, env)
+            exits = []
+            if isinstance(cm, Opaque) and cm.attrs.get('__enter__') is not None:
+                # a stub context manager supplied by a check (e.g. a file object): __enter__ / __exit__ as given
+                val = self.call(cm.attrs['__enter__'], [], {})
+                exits.append(cm)
+                if item.optional_vars is not None:
+                    self.assign(item.optional_vars, val, env)
+                continue
             if not (isinstance(cm, Opaque) and cm.what in ('numpy.errstate', 'warnings.catch_warnings')):
                 raise Undecidable('with statement over %r' % (cm,))
             if item.optional_vars is not None:
